@@ -62,6 +62,7 @@ type G struct {
 	must   bool // must finish for the execution to count as terminated
 	steps  int
 	objs   map[*Obj]struct{} // objects touched (only in record mode)
+	shared uint64            // goroutines (dense index < 64) that operate on an object this goroutine also operates on
 }
 
 func (g *G) Name() string { return g.name }
@@ -107,6 +108,7 @@ type Obj struct {
 	Label string
 	w     *World
 	users map[int]struct{}
+	mask  uint64 // goroutines (dense index < 64) that operated on this object
 }
 
 // Event is one scheduling step (kept only in record mode).
@@ -176,7 +178,7 @@ type World struct {
 	Notes    []Note
 	choices  []Choice // choices actually taken in the exploring phase
 	preempts int
-	switches int // context switches between goroutines sharing an object (record mode)
+	swPairs  [][2]int16 // context switches (from, to) in the exploring phase
 
 	nobj    int
 	netReg  map[string]any
@@ -462,6 +464,9 @@ func (w *World) schedule(prev *G) (*G, int32) {
 		w.Trace = append(w.Trace, Event{Step: w.steps, G: g.name, Op: g.pend.describe(alt, w), Site: g.pend.site, Sw: sw})
 	}
 	g.steps++
+	if w.exploring && prev != nil && prev != g {
+		w.swPairs = append(w.swPairs, [2]int16{int16(prev.idx), int16(g.idx)})
+	}
 	w.cur = g
 	return g, alt
 }
@@ -564,6 +569,7 @@ func (w *World) stepHash(g *G, code uint64, objs []*Obj) {
 			continue
 		}
 		o.last = h
+		w.share(g, o)
 		if w.record {
 			if o.users == nil {
 				o.users = map[int]struct{}{}
@@ -577,12 +583,30 @@ func (w *World) stepHash(g *G, code uint64, objs []*Obj) {
 	}
 }
 
+// share maintains the "operate on a common object" relation between goroutines.
+func (w *World) share(g *G, o *Obj) {
+	if g.idx >= 64 {
+		return
+	}
+	bit := uint64(1) << uint(g.idx)
+	if o.mask&bit == 0 {
+		for m, i := o.mask, 0; m != 0; m, i = m>>1, i+1 {
+			if m&1 != 0 {
+				w.gs[i].shared |= bit
+			}
+		}
+		g.shared |= o.mask
+		o.mask |= bit
+	}
+}
+
 // readHash folds a read-only operation into the goroutine's history (object hashes are not advanced).
 func (w *World) readHash(g *G, code uint64, objs []*Obj) {
 	h := mix(g.h, code)
 	for _, o := range objs {
 		if o != nil {
 			h = mix(h, o.last)
+			w.share(g, o)
 			if w.record {
 				w.touch(g, o)
 			}
